@@ -302,6 +302,51 @@ pub struct BucketCase {
     pub req: Req,
     /// seconds to advance before each request
     pub gaps: Vec<u64>,
+    /// the requests are TSIG-signed with a key named `key.elsewhere.` (it shares a label with the
+    /// out-of-zone name-server name of the referral shape): limited responses then carry a TSIG record
+    #[serde(default)]
+    pub signed: bool,
+}
+
+fn bucket_key() -> crate::srvrun::KeySpec {
+    crate::srvrun::KeySpec { name: n(&[b"key", b"elsewhere"]), sha256: true, secret: b"bucket-history-secret".to_vec() }
+}
+
+/// Appends a TSIG record (HMAC-SHA256, fudge 3600) signed with `bucket_key()`.
+fn sign_request(msg: &[u8], now: u64) -> Vec<u8> {
+    use vmodel::tsig as mt;
+    let key = bucket_key();
+    let id = u16::from_be_bytes([msg[0], msg[1]]);
+    let mut bytes = msg.to_vec();
+    let ar = u16::from_be_bytes([bytes[10], bytes[11]]).wrapping_add(1);
+    bytes[10..12].copy_from_slice(&ar.to_be_bytes());
+    let vars = mt::Vars { key_name: key.name.clone(), alg_name: mt::Alg::Sha256.name(), time_signed: now, fudge: 3600, error: 0, other: Vec::new() };
+    let mac = mt::hmac(mt::Alg::Sha256, &key.secret, &mt::request_digest_input(&bytes, id, &vars));
+    let rd = mr::encode_tsig(&mr::TsigRdata { algorithm: mt::Alg::Sha256.name(), time_signed: now, fudge: 3600, mac, original_id: id, error: 0, other: Vec::new() });
+    bytes.extend_from_slice(&key.name.wire());
+    bytes.extend_from_slice(&mr::T_TSIG.to_be_bytes());
+    bytes.extend_from_slice(&255u16.to_be_bytes());
+    bytes.extend_from_slice(&0u32.to_be_bytes());
+    bytes.extend_from_slice(&(rd.len() as u16).to_be_bytes());
+    bytes.extend_from_slice(&rd);
+    bytes
+}
+
+/// Two signed responses agree in everything but the TSIG record (whose time and MAC differ from call to call).
+fn same_apart_from_tsig(a: &[u8], b: &[u8]) -> bool {
+    match (decode_message(a), decode_message(b)) {
+        (Ok(x), Ok(y)) => {
+            let sec = |v: &Vec<vmodel::wire::RrDecode>| v.iter().map(|r| (r.owner.name.folded(), r.rtype, r.class, r.ttl_raw, r.rdata.clone())).collect::<Vec<_>>();
+            x.header.rcode == y.header.rcode
+                && x.header.aa == y.header.aa
+                && x.header.tc == y.header.tc
+                && sec(&x.answers) == sec(&y.answers)
+                && sec(&x.authority) == sec(&y.authority)
+                && plain_additional(&x).len() == plain_additional(&y).len()
+                && x.tsig().is_some() == y.tsig().is_some()
+        }
+        _ => false,
+    }
 }
 
 pub fn oracle_bucket(case: &BucketCase, st: &mut Stats) -> Verdict {
@@ -311,9 +356,15 @@ pub fn oracle_bucket(case: &BucketCase, st: &mut Stats) -> Verdict {
     req.tcp = false;
     req.opcode = 0;
     for _attempt in 0..5 {
-        let limited_server = make_server(&cat, &ServerCfg { payload: 1232, keys: vec![], rrl: Some(case.rrl.clone()) });
-        let twin = make_server(&cat, &ServerCfg { payload: 1232, keys: vec![], rrl: None });
-        let bytes = render_req(&req, 77);
+        let keys = if case.signed { vec![bucket_key()] } else { vec![] };
+        let limited_server = make_server(&cat, &ServerCfg { payload: 1232, keys: keys.clone(), rrl: Some(case.rrl.clone()) });
+        let twin = make_server(&cat, &ServerCfg { payload: 1232, keys, rrl: None });
+        let bytes = if case.signed {
+            let now = std::time::SystemTime::now().duration_since(std::time::UNIX_EPOCH).map(|d| d.as_secs()).unwrap_or(0);
+            sign_request(&render_req(&req, 77), now)
+        } else {
+            render_req(&req, 77)
+        };
         let src = addr_of(&req);
         let mut buf = Vec::new();
         let twin_resp = match exchange(&twin, &bytes, false, src, &mut buf)? {
@@ -366,7 +417,7 @@ pub fn oracle_bucket(case: &BucketCase, st: &mut Stats) -> Verdict {
                     recovered = true;
                 }
                 match &got {
-                    Some(r) => ensure!(*r == twin_resp, "sent-response-differs", "{}: the response differs from the unlimited server's: {} vs {}", describe(), hex(r), hex(&twin_resp)),
+                    Some(r) => ensure!(*r == twin_resp || (case.signed && same_apart_from_tsig(r, &twin_resp)), "sent-response-differs", "{}: the response differs from the unlimited server's: {} vs {}", describe(), hex(r), hex(&twin_resp)),
                     None => fail!("unlimited-response-dropped", "{}: the response must be sent but was dropped", describe()),
                 }
             }
@@ -385,6 +436,9 @@ pub fn oracle_bucket(case: &BucketCase, st: &mut Stats) -> Verdict {
         st.class(["stream-noerror", "stream-nxdomain", "stream-error"][cat_idx as usize]);
         if limited_seen {
             st.class("history-with-limited-response");
+            if case.signed {
+                st.class("history-of-signed-requests-with-limited-response");
+            }
         }
         if recovered {
             st.class("limited-then-refilled-and-sent");
@@ -426,6 +480,8 @@ fn bucket_case() -> impl Strategy<Value = BucketCase> {
             )
         })
         .prop_map(|(rrl, shape, gaps)| BucketCase {
+            // one history in five is signed (derived from the history itself: no further generator input)
+            signed: gaps.len() % 5 == 0 && !matches!(shape, Shape::FormErr | Shape::BadVers),
             rrl,
             req: Req { shape, mask: 0, tcp: false, opcode: 0, family: 0, addr: 0x0a00_0001 },
             gaps,
